@@ -254,3 +254,17 @@ def verdict(c, out, ctx):
 def nontrivial(c, out):
     p = c.info.get('patch')
     return isinstance(p, list) and not isinstance(p, Obj) and len(p) > 0 and not is_crash(out)
+
+
+# ---------------------------------------------------------------------------------------------------------------------------------
+# The HEAP-LEVEL transliterations the companion file Properties_C16_Heap.v is about are executed against the library too
+# (area uheap, tools/props/uheap.py): same operand trees, results, operand trees afterwards and allocator ledger compared.
+from . import uheap as _UH
+AREAS = ['patch', 'uheap']
+MODEL_FILES = MODEL_FILES + '; heap-level: ' + _UH.MODEL_FILES
+RULE = RULE + ' || area uheap (heap-level transliterations, kinds %s): ' % '/'.join(_UH.KINDS_OF['C16']) + _UH.RULE
+_generate0, _project0, _verdict0, _nontrivial0 = generate, project, verdict, nontrivial
+def generate(ctx): return _generate0(ctx) + _UH.generate(ctx, kinds=_UH.KINDS_OF['C16'])
+def project(c, out): return _UH.project(c, out) if c.info.get('area') == 'uheap' else _project0(c, out)
+def verdict(c, out, ctx): return _UH.verdict(c, out, ctx) if c.info.get('area') == 'uheap' else _verdict0(c, out, ctx)
+def nontrivial(c, out): return _UH.nontrivial(c, out) if c.info.get('area') == 'uheap' else _nontrivial0(c, out)
